@@ -1,7 +1,9 @@
 (* C06 — traps, exits and host panics are contained and leave the runtime usable.
    PARTIAL: native stack unwinding / call-engine reuse are exercised by the correspondence run (same api.Function
    objects reused across failures, both engines, a second untouched instance), not modelled. On the reference
-   semantics W, for every program, host behaviour (return / panic / exit / re-entry at any nesting depth) and fuel: *)
+   semantics W, for every program, host behaviour (return / panic / exit / re-entry at any nesting depth) and fuel;
+   closed modules (an exit closes the instance that called the exiting host function) are modelled on top of W in
+   Wasm/SemExit.v: see the second half of this file. *)
 From Coq Require Import ZArith List.
 From Verif Require Import Wasm.Numerics Wasm.Sem Proofs.SemP.
 Import ListNotations.
@@ -88,3 +90,95 @@ Theorem C06_skipping_reset_refuted :
     snd (fst (c_call_bad 64 st1 tr2)) <> fresh_outcome 64 tr2.
 Proof. exact skipping_reset_refuted. Qed.
 Print Assumptions C06_skipping_reset_refuted.
+
+(* ================================================================ closed modules (Wasm/SemExit.v: W + per-instance
+   closed flags and exit codes; [who] maps the code of a host function to the instance that calls it). For every
+   program, host behaviour, fuel, depth bound and caller map: *)
+From Verif Require Import Wasm.SemExit Proofs.SemExitP.
+
+(* "the exit error carries the exit code": an export call that ends in an exit reports the code of the LAST host call
+   logged, which is an exiting one - the innermost exiting call of the chain, however many guest frames, instances
+   and re-entrant host frames it unwinds *)
+Theorem C06_exit_code_of_innermost_exit :
+  forall D host listened maxdepth fuel s fa args s' c,
+  call_export D host listened maxdepth fuel s fa args = (s', RTrap (TExit c)) ->
+  exists h hargs, last_host D (s_log s') = Some (h, hargs) /\ host h hargs = HExit c.
+Proof. exact exit_is_last_host_call. Qed.
+Print Assumptions C06_exit_code_of_innermost_exit.
+
+(* an exit closes exactly the instance that made that host call (first code wins if it was closed already); every
+   other instance - the one the chain entered through, the ones in the middle of the chain - keeps its status *)
+Theorem C06_exit_closes_only_the_caller :
+  forall D host listened maxdepth who fuel x fa args c,
+  snd (call_export D host listened maxdepth fuel (x_s x) fa args) = RTrap (TExit c) ->
+  snd (xcall D host listened maxdepth who fuel x fa args) = RTrap (TExit c) /\
+  exists h hargs,
+    last_host D (s_log (x_s (fst (xcall D host listened maxdepth who fuel x fa args)))) = Some (h, hargs) /\ host h hargs = HExit c /\
+    x_cl (fst (xcall D host listened maxdepth who fuel x fa args)) = mark (x_cl x) (who h) c /\
+    (exists d, closed_code (x_cl (fst (xcall D host listened maxdepth who fuel x fa args))) (who h) = Some d /\
+               (closed_code (x_cl x) (who h) = None -> d = c)) /\
+    (forall j, j <> who h -> closed_code (x_cl (fst (xcall D host listened maxdepth who fuel x fa args))) j = closed_code (x_cl x) j).
+Proof. exact xcall_exit. Qed.
+Print Assumptions C06_exit_closes_only_the_caller.
+
+(* traps, stack exhaustion, host panics and normal returns close nothing *)
+Theorem C06_other_failures_close_nothing :
+  forall D host listened maxdepth who fuel x fa args,
+  (forall c, snd (call_export D host listened maxdepth fuel (x_s x) fa args) <> RTrap (TExit c)) ->
+  x_cl (fst (xcall D host listened maxdepth who fuel x fa args)) = x_cl x.
+Proof. exact xcall_no_exit_no_close. Qed.
+Print Assumptions C06_other_failures_close_nothing.
+
+(* effects persist and open instances keep behaving as in W: after ANY history (failures of every kind, exits at any
+   depth, calls on closed instances) the store is the one W reaches, and a call into an open instance returns exactly
+   what W returns from that store, whatever other instances are closed *)
+Theorem C06_open_instance_as_in_W :
+  forall D host listened maxdepth who fuel x fa args,
+  (forall ii, inst_of D (x_s x) fa = Some ii -> closed_code (x_cl x) ii = None) ->
+  snd (xcall D host listened maxdepth who fuel x fa args) = snd (call_export D host listened maxdepth fuel (x_s x) fa args).
+Proof. exact xcall_open_as_W. Qed.
+Print Assumptions C06_open_instance_as_in_W.
+
+Theorem C06_history_vs_W :
+  forall D host listened maxdepth who fuel calls x,
+  x_s (fst (xrun_calls D host listened maxdepth who fuel x calls)) = fst (run_calls D host listened maxdepth fuel (x_s x) calls) /\
+  Forall2 (res_rel D) (snd (xrun_calls D host listened maxdepth who fuel x calls)) (snd (run_calls D host listened maxdepth fuel (x_s x) calls)).
+Proof. exact xrun_calls_vs_W. Qed.
+Print Assumptions C06_history_vs_W.
+
+(* a call on an export of a closed instance never returns values (the model, like the pinned code, runs it and reports
+   the instance's exit error instead of the values) *)
+Theorem C06_closed_instance_never_succeeds :
+  forall D host listened maxdepth who fuel x fa args ii c,
+  inst_of D (x_s x) fa = Some ii -> closed_code (x_cl x) ii = Some c ->
+  (forall vs, snd (xcall D host listened maxdepth who fuel x fa args) <> RVals vs) /\
+  (forall vs, snd (call_export D host listened maxdepth fuel (x_s x) fa args) = RVals vs ->
+              snd (xcall D host listened maxdepth who fuel x fa args) = RTrap (TExit c)).
+Proof. exact xcall_closed_never_values. Qed.
+Print Assumptions C06_closed_instance_never_succeeds.
+
+(* closed stays closed with its first code *)
+Theorem C06_closed_is_permanent :
+  forall D host listened maxdepth who fuel calls x j d,
+  closed_code (x_cl x) j = Some d ->
+  closed_code (x_cl (fst (xrun_calls D host listened maxdepth who fuel x calls))) j = Some d.
+Proof. exact xrun_closed_mono. Qed.
+Print Assumptions C06_closed_is_permanent.
+
+(* continue-as-if on the extended state (store + closed flags), for export-call histories and for histories of
+   instantiations (start functions included) and calls on linked programs (store, positions, closed flags, names) *)
+Theorem C06_continue_as_if_closed :
+  forall D host listened maxdepth who fuel c1 x c2,
+  xrun_calls D host listened maxdepth who fuel x (c1 ++ c2) =
+  let '(x1, r1) := xrun_calls D host listened maxdepth who fuel x c1 in
+  let '(x2, r2) := xrun_calls D host listened maxdepth who fuel x1 c2 in (x2, r1 ++ r2).
+Proof. exact xrun_calls_app. Qed.
+Print Assumptions C06_continue_as_if_closed.
+
+Theorem C06_continue_as_if_linked :
+  forall hs a1 x a2,
+  xlrun hs x (a1 ++ a2) =
+  let '(x1, r1) := xlrun hs x a1 in
+  let '(x2, r2) := xlrun hs x1 a2 in (x2, r1 ++ r2).
+Proof. exact xlrun_app. Qed.
+Print Assumptions C06_continue_as_if_linked.
